@@ -56,7 +56,7 @@ def tasks_sync(ctx):
 
 
 def tasks_sampled(ctx):
-    n_s = ctx.pick(4, 40)
+    n_s = ctx.pick(4, 25)
     t = []
     for sp, n in SAMPLED.items():
         if not ctx.thorough and n > 10:
@@ -71,7 +71,7 @@ def tasks_sampled(ctx):
 # submission are on disk, jobs are taken as done from the stale result and the next stage is offered while
 # first-stage jobs of the second submission are still executing.
 TWO_QUICK = {"split2>b": 4, "fanout": 3, "one+chain2": 3, "chain2+chain2": 4, "diamond": 4, "indep3": 3}
-TWO_THOROUGH = {"split3>b": 6, "a>split2>c": 5, "split2+chain2": 4, "split2!>b": 3, "chain3": 3, "split3": 3, "fanin": 3, "diamond+one": 5, "split2+plain>c": 5, "chain3+b>split2": 6}
+TWO_THOROUGH = {"split3>b": 6, "a>split2>c": 5, "split2+chain2": 4, "split2!>b": 3, "chain3": 3, "split3": 3, "fanin": 3}
 TWO_SAMPLED = {"split4>b": 8, "split2>diamond": 10, "split2,split2>c": 8, "split5>b+split3": 13, "2x chain4 + split2": 10}
 MODES = [(False, True), (False, False), (True, True), (True, False)]  # (rerun, propagate_rerun)
 
@@ -85,7 +85,7 @@ def tasks_two_submissions(ctx):
         for k in ks(n, ctx):
             for prior in ("all", "partial"):
                 for rerun, prop in MODES:
-                    for vis in ((INF,), (0,)) + (((0, INF),) if ctx.thorough and n <= 4 else ()):
+                    for vis in ((INF,), (0,)) + (((0, INF),) if ctx.thorough and n <= 3 else ()):
                         if not ctx.thorough and vis == (0,) and (prior == "partial" or not (rerun and prop)):
                             continue
                         t.append((H.Opts(sp, loop="real", k=k, vis=vis, prior=prior, rerun=rerun, propagate=prop), 0, 1 if n >= 5 else 0))
@@ -93,7 +93,7 @@ def tasks_two_submissions(ctx):
 
 
 def tasks_two_sampled(ctx):
-    n_s = ctx.pick(3, 25)
+    n_s = ctx.pick(3, 10)
     t = []
     for sp, n in TWO_SAMPLED.items():
         if not ctx.thorough and n > 10:
@@ -155,7 +155,7 @@ def run(ctx):
         )
         d3 = ctx.domain(
             "asynchronous loop: 6-13 jobs (sampled)",
-            bound=f"workflows {SAMPLED if ctx.thorough else {k: v for k, v in SAMPLED.items() if v <= 10}}, k " + ("1..jobs" if ctx.thorough else "in {1,2,3,n/2,n-1,n}") + f", {ctx.pick(4, 40)} random scripts each (visibility delay 0/1/never, several completions per observation), seed {ctx.seed}",
+            bound=f"workflows {SAMPLED if ctx.thorough else {k: v for k, v in SAMPLED.items() if v <= 10}}, k " + ("1..jobs" if ctx.thorough else "in {1,2,3,n/2,n-1,n}") + f", {ctx.pick(4, 25)} random scripts each (visibility delay 0/1/never, several completions per observation), seed {ctx.seed}",
             rule="one case = one random script, distinct by choice list",
             exhaustive=False,
         )
@@ -169,7 +169,7 @@ def run(ctx):
                 "of the nodes (prior=partial); the checked history is the SECOND submission under the real expand_workflow_async (scripted worker that, like Job.run, "
                 "returns a stored result without executing unless the loop passes rerun=True), rerun in {False, True} x propagate_rerun in {True, False} x k = 1..jobs x "
                 "every completion order, lock files never seen (stale results stay visible while a job re-executes)"
-                + (" / all seen (a re-execution clears its directory when it starts)" + (" / per job for <= 4 jobs" if ctx.thorough else " for prior=all with an effective rerun"))
+                + (" / all seen (a re-execution clears its directory when it starts)" + (" / per job for <= 3 jobs" if ctx.thorough else " for prior=all with an effective rerun"))
             ),
             rule="one case = one second-submission history (workflow, prior, rerun, propagate_rerun, k, script choices); non-trivial = more jobs than k; "
             "contract: never more than k jobs handed to the worker and unfinished; a job with a stored result is executed only if rerun and propagate_rerun",
@@ -179,7 +179,7 @@ def run(ctx):
             "second submission over a warm cache: 8-13 jobs (sampled)",
             bound=f"workflows {TWO_SAMPLED if ctx.thorough else {k: v for k, v in TWO_SAMPLED.items() if v <= 10}}, prior in {{all, partial}}, "
             + ("all four rerun/propagate_rerun modes" if ctx.thorough else "rerun in {True, False} with propagate_rerun=True")
-            + f", k in {{1,2,3,n/2,n-1,n}}, {ctx.pick(3, 25)} random scripts each (visibility delay 0/1/never, several completions per observation), seed {ctx.seed}",
+            + f", k in {{1,2,3,n/2,n-1,n}}, {ctx.pick(3, 10)} random scripts each (visibility delay 0/1/never, several completions per observation), seed {ctx.seed}",
             rule="one case = one random script of the second submission, distinct by choice list",
             exhaustive=False,
         )
